@@ -620,7 +620,7 @@ func c05SharedTLS(c *Check, r *RuleCtx) {
 		case *ssa.UnOp:
 			if fa, ok := x.X.(*ssa.FieldAddr); ok {
 				if fv := fieldVarOf(fa); fv != nil {
-					return "shared field " + fv.Name()
+					return "shared field " + objName(fv)
 				}
 			}
 			if al, ok := x.X.(*ssa.Alloc); ok {
@@ -654,7 +654,7 @@ func c05SharedTLS(c *Check, r *RuleCtx) {
 					fv := fieldVarOf(fa)
 					name := "?"
 					if fv != nil {
-						name = fv.Name()
+						name = objName(fv)
 					}
 					msg = "tls.Config." + name + " is written on an object that is not a private clone (" + s + "): the weakening persists in the target-wide configuration and every later connection skips certificate verification while still being reported as authenticated"
 				}
